@@ -159,6 +159,16 @@ fn compress_to_vec_inner(mut input: &[u8], level: u8, window_bits: i32, strategy
             &mut output[out_pos..],
             TDEFLFlush::Finish,
         );
+        #[cfg(all(miniz_oxide_verif, feature = "std"))]
+        crate::verif_vec_trace::push([
+            2,
+            input.len() as i64,
+            output.len() as i64,
+            out_pos as i64,
+            status as i64,
+            bytes_in as i64,
+            bytes_out as i64,
+        ]);
         out_pos += bytes_out;
 
         match status {
